@@ -2,6 +2,7 @@
 //
 //	gen consts <repo> <out.v>     constants, tables, error values, channel capacities
 //	gen lockfacts <repo> <out.v>  lockset facts per field access / channel op / ops call (see lockfacts.go)
+//	gen shape <repo> <out.v>      event sequence of every function in source order (see shape.go)
 //
 // Standard library only (go/ast, go/types with the source importer); works offline.
 // A construct the translator cannot read is a hard error (exit 2), never skipped.
@@ -372,13 +373,15 @@ func writeIfChanged(path string, data []byte) {
 
 func main() {
 	if len(os.Args) != 4 {
-		die("usage: gen consts|lockfacts <repo> <out.v>")
+		die("usage: gen consts|lockfacts|shape <repo> <out.v>")
 	}
 	switch os.Args[1] {
 	case "consts":
 		genConsts(os.Args[2], os.Args[3])
 	case "lockfacts":
 		genLockFacts(os.Args[2], os.Args[3])
+	case "shape":
+		genShape(os.Args[2], os.Args[3])
 	default:
 		die("unknown mode %s", os.Args[1])
 	}
